@@ -30,6 +30,9 @@ var c14Conds = []struct{ name, cond string }{
 	{"unknown-field", "F.Nope == 1"},
 	{"unknown-method", "F.NoMethod() == 1"},
 	{"two-results", "F.Two() == 1"},
+	{"paren-or-later-fails", "(F.Arr[F.K] > 0) || F.I2 == 9"},
+	{"paren-and-later-fails", "(F.Arr[F.K] > 5) && F.I2 == 0"},
+	{"selector-later-fails", "F.Arr[F.K] > 0 && F.I < 5"},
 }
 
 var c14Acts = []struct {
@@ -45,6 +48,7 @@ var c14Acts = []struct {
 	{"act-unknown-field", []string{"F.I = F.I + 1", "F.Nope = 1", "F.I2 = 6"}},
 	{"act-missing-fact", []string{"F.I = F.I + 1", "Z.I = 1", "F.I2 = 5"}},
 	{"act-rhs-fails", []string{"F.I = F.I + 1", "F.I2 = F.P.V + 1", "F.I2 = 4"}},
+	{"selector-goes-out-of-range", []string{"F.K = 7", "F.Act(%a)"}},
 }
 
 func c14Rule(i int, ci, ai int) *grl.Rule {
@@ -249,7 +253,7 @@ func faultHappenedAfterExec(tr *hx.Trace, n uint64) bool {
 
 func C14(rep *ev.Reporter, tier string) {
 	bud := NewBudget(50 * time.Second)
-	companions := [][2]int{{4, 0}, {0, 1}, {3, 2}, {5, 0}, {4, 3}, {2, 2}}
+	companions := [][2]int{{4, 0}, {0, 1}, {3, 2}, {5, 0}, {4, 3}, {2, 2}, {4, 9}, {14, 9}, {15, 0}}
 	if tier == "thorough" {
 		bud = NewBudget(9 * time.Minute)
 		companions = nil
